@@ -173,6 +173,69 @@ var programs = []program{
 		_, err = cp.Wait()
 		rep("Capability", 1, err)
 	}},
+	{"fetch-many-plain-items", func(c *imapclient.Client, rep func(string, int, error)) {
+		// one FETCH response with many data items none of which is a literal
+		rep("Login", 1, c.Login("u", "p").Wait())
+		_, err := c.Select("INBOX", nil).Wait()
+		rep("Select", 1, err)
+		opts := &imap.FetchOptions{UID: true, Flags: true, RFC822Size: true, InternalDate: true}
+		for i := 1; i <= 10; i++ {
+			opts.BinarySectionSize = append(opts.BinarySectionSize, &imap.FetchItemBinarySectionSize{Part: []int{i}})
+		}
+		_, err = c.Fetch(imap.SeqSetNum(1, 2), opts).Collect()
+		rep("Fetch.Collect(14 items)", 1, err)
+		opts.Envelope, opts.BodyStructure = true, &imap.FetchItemBodyStructure{Extended: true}
+		opts.BodySection = []*imap.FetchItemBodySection{bodySection()}
+		cmd := c.Fetch(imap.SeqSetNum(3), opts)
+		for msg := cmd.Next(); msg != nil; msg = cmd.Next() {
+			for item := msg.Next(); item != nil; item = msg.Next() {
+				if bs, ok := item.(imapclient.FetchItemDataBodySection); ok && bs.Literal != nil {
+					io.Copy(io.Discard, bs.Literal)
+				}
+			}
+		}
+		rep("Fetch.Close(17 items)", 1, cmd.Close())
+	}},
+	{"fetch-more-messages-than-the-client-buffers", func(c *imapclient.Client, rep func(string, int, error)) {
+		rep("Login", 1, c.Login("u", "p").Wait())
+		_, err := c.Select("INBOX", nil).Wait()
+		rep("Select", 1, err)
+		var set imap.SeqSet
+		set.AddRange(1, 140)
+		_, err = c.Fetch(set, &imap.FetchOptions{UID: true}).Collect()
+		rep("Fetch.Collect(140 messages)", 1, err)
+		rep("Noop", 1, c.Noop().Wait())
+	}},
+	{"pipelined-behind-logout", func(c *imapclient.Client, rep func(string, int, error)) {
+		// commands sent behind LOGOUT are never answered: the server says BYE,
+		// completes LOGOUT and closes. They must fail, whatever happens.
+		rep("Login", 1, c.Login("u", "p").Wait())
+		lo, n := c.Logout(), c.Noop()
+		st := c.Status("a", &imap.StatusOptions{NumMessages: true})
+		rep("Logout", 1, lo.Wait())
+		rep("?Noop(behind LOGOUT)", 1, n.Wait())
+		_, err := st.Wait()
+		rep("?Status(behind LOGOUT)", 1, err)
+	}},
+	{"uid-commands+examine+close", func(c *imapclient.Client, rep func(string, int, error)) {
+		rep("Login", 1, c.Login("u", "p").Wait())
+		_, err := c.Select("INBOX", &imap.SelectOptions{ReadOnly: true}).Wait()
+		rep("Examine", 1, err)
+		_, err = c.Fetch(imap.UIDSetNum(101, 102), &imap.FetchOptions{Flags: true, BodySection: []*imap.FetchItemBodySection{{Specifier: imap.PartSpecifierText, Peek: true}}}).Collect()
+		rep("UIDFetch.Collect", 1, err)
+		_, err = c.Store(imap.UIDSetNum(101), &imap.StoreFlags{Op: imap.StoreFlagsDel, Silent: true, Flags: []imap.Flag{imap.FlagSeen}}, nil).Collect()
+		rep("UIDStore.Collect", 1, err)
+		_, err = c.Copy(imap.UIDSetNum(101), "dest").Wait()
+		rep("UIDCopy", 1, err)
+		_, err = c.UIDExpunge(imap.UIDSetNum(101)).Collect()
+		rep("UIDExpunge.Collect", 1, err)
+		_, err = c.Search(&imap.SearchCriteria{Text: []string{"with \"quote"}}, nil).Wait()
+		rep("Search", 1, err)
+		_, err = c.List("", "%", nil).Collect()
+		rep("List.Collect", 1, err)
+		rep("Unsubscribe", 1, c.Unsubscribe("Sent").Wait())
+		rep("Close", 1, c.Unselect().Wait())
+	}},
 	{"create+rename+subscribe+enable+capability", func(c *imapclient.Client, rep func(string, int, error)) {
 		rep("Login", 1, c.Login("u", "p").Wait())
 		rep("Create", 1, c.Create("new box", nil).Wait())
@@ -210,13 +273,34 @@ func newStub() *stub.Core {
 	}
 	body := bytes.Repeat([]byte("Header: value\r\n\r\nbody text line\r\n"), reps)
 	core.OnFetch = func(w *imapserver.FetchWriter, set imap.NumSet, o *imap.FetchOptions) error {
-		ss := set.(imap.SeqSet)
-		nums, _ := ss.Nums()
+		var nums []uint32
+		switch ss := set.(type) {
+		case imap.SeqSet:
+			nums, _ = ss.Nums()
+		case imap.UIDSet:
+			uids, _ := ss.Nums()
+			for _, u := range uids {
+				nums = append(nums, uint32(u)-100)
+			}
+		}
 		for _, n := range nums {
 			rw := w.CreateMessage(n)
 			rw.WriteUID(imap.UID(n + 100))
 			if o.Flags {
 				rw.WriteFlags([]imap.Flag{imap.FlagSeen})
+			}
+			if o.RFC822Size {
+				rw.WriteRFC822Size(int64(len(body)))
+			}
+			if o.InternalDate {
+				rw.WriteInternalDate(time.Date(2024, 2, 3, 4, 5, 6, 0, time.UTC))
+			}
+			for _, bs := range o.BinarySectionSize {
+				rw.WriteBinarySectionSize(&imap.FetchItemBinarySection{Part: bs.Part}, uint32(100+len(bs.Part)))
+			}
+			if o.BodyStructure != nil {
+				rw.WriteBodyStructure(&imap.BodyStructureSinglePart{Type: "text", Subtype: "plain", Params: map[string]string{"charset": "utf-8"}, Encoding: "7BIT", Size: 42,
+					Text: &imap.BodyStructureText{NumLines: 3}, Extended: &imap.BodyStructureSinglePartExt{}})
 			}
 			if o.Envelope {
 				rw.WriteEnvelope(&imap.Envelope{Subject: "hello", From: []imap.Address{{Name: "A", Mailbox: "a", Host: "b"}}})
@@ -265,7 +349,7 @@ func record(t *testing.T, p program) *recording {
 			return stub.Session(core, stub.FAll&^stub.FSASL), nil, nil
 		},
 		InsecureAuth: true,
-		Caps:         imap.CapSet{imap.CapIMAP4rev1: {}, imap.CapMove: {}, imap.CapUIDPlus: {}, imap.CapNamespace: {}, imap.CapESearch: {}, imap.CapListStatus: {}, imap.CapListExtended: {}},
+		Caps:         imap.CapSet{imap.CapIMAP4rev1: {}, imap.CapMove: {}, imap.CapUIDPlus: {}, imap.CapNamespace: {}, imap.CapESearch: {}, imap.CapListStatus: {}, imap.CapListExtended: {}, imap.CapBinary: {}},
 	})
 	defer env.Stop()
 	c, s := pipe.New() // hooks are installed before the server sees the connection
@@ -299,8 +383,11 @@ func record(t *testing.T, p program) *recording {
 			return
 		}
 		p.run(cl, func(name string, tags int, err error) {
-			if err != nil {
+			if err != nil && !strings.HasPrefix(name, "?") {
 				t.Errorf("recording %q: %s failed without any fault: %v", p.name, name, err)
+			}
+			if err == nil && strings.HasPrefix(name, "?") {
+				t.Errorf("recording %q: %s succeeded although the server never answers it", p.name, name)
 			}
 		})
 	}()
@@ -555,10 +642,17 @@ func replay(t *testing.T, p program, rec *recording, cut int, kind faultKind) {
 		defer cmu.Unlock()
 		for _, cl := range calls {
 			tagN += cl.tags
+			if cl.tags == 0 {
+				continue
+			}
 			end, ok := rec.completionEnd[fmt.Sprintf("T%d", tagN)]
 			if ok && cut < end && cl.err == nil {
 				t.Fatalf("program %q, fault %s after %d of %d server bytes: %s returned success although its tagged completion (ending at offset %d) was not fully received (closedByCaller=%v)",
 					p.name, kind, cut, len(rec.server), cl.name, end, closedByCaller)
+			}
+			if !ok && cl.err == nil {
+				t.Fatalf("program %q, fault %s after %d of %d server bytes: %s returned success although the transcript holds no tagged completion for it at all (closedByCaller=%v)",
+					p.name, kind, cut, len(rec.server), cl.name, closedByCaller)
 			}
 		}
 	}
